@@ -4,6 +4,7 @@
 //! case   {"flow": name, "ticks": [ {"a": [...], "b": [...]}, ... ]}
 //! result {"ticks": [ {"out": [...], ...}, ... ]}
 //! case   {"k": "syntax"} -> {"syntax": {flow: surface syntax of the emitted DFIR graph}}
+//! case   {"k": "syntax", "flow": name} -> {"syntax": surface syntax of that flow's DFIR graph}
 use std::cell::RefCell;
 use std::collections::VecDeque;
 use std::pin::Pin;
@@ -135,6 +136,12 @@ include!("../flows_table.rs");
 
 fn run(case: &Value) -> Value {
     if case.get("k").and_then(|k| k.as_str()) == Some("syntax") {
+        if let Some(f) = case.get("flow").and_then(|f| f.as_str()) {
+            return match SYNTAX.iter().find(|(n, _)| *n == f) {
+                Some((_, s)) => json!({"syntax": *s}),
+                None => json!({"bad_case": format!("unknown flow {f}")}),
+            };
+        }
         let mut m = serde_json::Map::new();
         for (n, s) in SYNTAX {
             m.insert((*n).to_owned(), json!(*s));
